@@ -102,20 +102,43 @@ EnableDropped(stmts) == \E i, j \in DOMAIN stmts : stmts[i].k = "place" /\ stmts
 NegatedShared(stmts) == \E j \in DOMAIN stmts : stmts[j].k = "prop" /\ stmts[j].p = "enable" /\ stmts[j].e.k = "un" /\ stmts[j].e.op = "!"
                             /\ stmts[j].e.e.k = "ref" /\ \E i \in Lets(stmts) : stmts[i].n = stmts[j].e.e.n /\ IsCmp(stmts[i].e)
 
-(* KF-C01-shared-operand-merge: x = a * 2 + b; y = a * 3 + b;  b is wired to the input connectors of both adders on the   *)
-(* same colour as their other (same-typed) operands, so the two adders' input networks become one: both compute a*2 + a*3 + b. *)
+(* KF-C01-shared-operand-merge: a value X consumed by two operations K1 and K2 is wired from ONE connector to both, which   *)
+(* joins the input networks of K1 and K2; every other operand Y of K1 thereby also arrives at K2.  When K2 reads a signal   *)
+(* Y can carry (another signal operand, or each/anything/everything) K2 computes with a foreign value; when the join closes *)
+(* a cycle the circuit oscillates.  x = a * 2 + b; y = a * 3 + b; both compute a*2 + a*3 + b.  Footprint on the AST:        *)
+(*   Merge: operations K1 # K2 share an operand X; K1 has another non-literal operand Y that K2 does not have; K2 has a     *)
+(*   second non-literal operand or consumes a bundle.                                                                       *)
+(* The same happens across the iterations of a loop (LoopShared).                                                           *)
+RECURSIVE OpsE(_)
+IsOp(e) == e.k \in {"bin", "cond", "un", "proj", "sel", "any", "all", "blit"}
+Kids(e) == CASE e.k = "bin" -> {e.l, e.r} [] e.k = "cond" -> {e.c, e.v} [] e.k \in {"un", "proj"} -> {e.e}
+             [] e.k \in {"sel", "any", "all"} -> {e.b} [] e.k = "blit" -> {e.es[i] : i \in DOMAIN e.es} [] OTHER -> {}
+\* a comparison used as the condition of a conditional value, or inlined under any()/all(), is part of the consuming operation
+Flat(K) == UNION {IF k.k = "bin" /\ K.k = "cond" /\ k = K.c THEN Kids(k) ELSE IF k.k \in {"any", "all"} THEN {k.b} ELSE {k} : k \in Kids(K)}
+OpsE(e) == (IF IsOp(e) THEN {e} ELSE {}) \cup UNION {OpsE(k) : k \in Kids(e)}
+RECURSIVE DeepOps(_)
+DeepOps(ss) == UNION {IF ss[i].k \in {"let", "prop", "int", "expr"} THEN OpsE(ss[i].e)
+                      ELSE IF ss[i].k = "write" THEN OpsE(ss[i].e) \cup OpsE(ss[i].a) \cup OpsE(ss[i].b)
+                      ELSE IF ss[i].k = "for" THEN DeepOps(ss[i].body) ELSE {} : i \in DOMAIN ss}
+NonLit(e) == e.k # "num"
+BundleNames(stmts) == {stmts[i].n : i \in {i \in Lets(stmts) : stmts[i].ty = "Bundle"}}
+ConsumesBundle(stmts, K) == K.k \in {"sel", "any", "all"} \/ \E z \in Flat(K) : z.k \in {"any", "all", "eout"} \/ (z.k = "ref" /\ z.n \in BundleNames(stmts))
+Merge(stmts) ==
+  \E K1, K2 \in DeepOps(stmts) : K1 # K2 /\
+     \E X \in Flat(K1) \cap Flat(K2) : NonLit(X) /\
+        \E Y \in Flat(K1) : Y # X /\ NonLit(Y) /\ Y \notin Flat(K2)
+             /\ (ConsumesBundle(stmts, K2) \/ \E Z \in Flat(K2) : Z # X /\ NonLit(Z))
 RECURSIVE DeepBins(_)
 DeepBins(ss) == UNION {IF ss[i].k \in {"let", "prop", "int", "expr"} THEN BinsE(ss[i].e)
                        ELSE IF ss[i].k = "for" THEN DeepBins(ss[i].body) ELSE {} : i \in DOMAIN ss}
-SharedOperandPair(b1, b2) == b1.r.k = "ref" /\ b2.r = b1.r /\ b1.l.k = "bin" /\ b2.l.k = "bin" /\ b1.l # b2.l
 Declared0(ss) == {ss[i].n : i \in {i \in DOMAIN ss : ss[i].k \in {"int", "let", "mem", "place"}}}
 RECURSIVE LoopShared(_)
 LoopShared(ss) == \E i \in DOMAIN ss : ss[i].k = "for" /\
                      (LoopShared(ss[i].body) \/ \E b \in DeepBins(ss[i].body) : b.r.k = "ref" /\ b.l.k = "bin" /\ b.r.n \notin Declared0(ss[i].body))
-SharedOperandMerge(stmts) == LoopShared(stmts) \/ \E b1, b2 \in DeepBins(stmts) : SharedOperandPair(b1, b2)
+SharedOperandMerge(stmts) == LoopShared(stmts) \/ Merge(stmts)
 
 KnownFinding(stmts, clause) ==
-  IF clause \in {"C01_value", "C06_enable"} /\ SharedOperandMerge(stmts) THEN "KF-C01-shared-operand-merge"
+  IF clause \in {"C01_value", "C02_bag", "C06_enable", "C01_settles", "R2_equal"} /\ SharedOperandMerge(stmts) THEN "KF-C01-shared-operand-merge"
   ELSE IF clause = "C06_condition" /\ EnableDropped(stmts) THEN "KF-C06-enable-dropped"
   ELSE IF clause = "C06_enable" /\ NegatedShared(stmts) THEN "KF-C06-negated-shared-condition"
   ELSE IF clause \in {"C04_iterates", "C04_reader"} /\ DeciderChain(stmts) THEN "KF-C04-decider-chain"
